@@ -235,9 +235,18 @@ def generate(rng, n, tier):
                 pairs.append([pairs[a][rng.randrange(2)], pairs[b_][1]])
                 pairs = [p for i, p in enumerate(pairs) if p[0] != p[1] and p not in pairs[:i]]
                 off = rng.choice([None, 0.0])
+            if rng.random() < 0.15 and len(x) >= 3:
+                # the docstring shape: one entry tracks two free partners (they are made equal), with an offset; possibly a follower behind it
+                idx_ = rng.sample(range(len(x)), min(len(x), 4))
+                pairs = [[idx_[0], idx_[2]], [idx_[1], idx_[2]]] + ([[idx_[2], idx_[3]]] if len(idx_) == 4 and rng.random() < 0.5 else [])
+                off = rng.choice([1.0, 0.5, -2.0, 10.0])
             if not _offset_loop_terminates(pairs):
                 pairs = []
-            if off and len(set(j % len(x) if x else j for _, j in pairs)) < len(set((i, j) for i, j in pairs)):
+            _n = len(x) or 1
+            _tracked = set(j % _n for _, j in pairs)
+            _fanin = [j for j in _tracked if len(set(i % _n for i, jj in pairs if jj % _n == j)) > 1]
+            # (an entry tracking two partners that are themselves free entries is fine: the partners are made equal, as in the docstring example)
+            if off and any((i % _n) in _tracked for j in _fanin for i, jj in pairs if jj % _n == j):
                 # an entry that tracks two different partners: with a non-zero offset both relations hold only if the partners (entries that are
                 # not selected) already agree - no target set to land in; such masks are meaningful without an offset only
                 off = rng.choice([None, 0.0])
